@@ -680,7 +680,7 @@ class Origin:
     def _rv(self, rv, rest, bi, work, leaves, through_calls):
         k = rv['k']
         if k in ('use', 'cast', 'un'):
-            op = rv.get('op') or rv.get('a')
+            op = rv.get('a') if k == 'un' else (rv.get('op') or rv.get('a'))
             c = op_const(op)
             if c is not None:
                 leaves.add(self._const_leaf(c))
